@@ -125,7 +125,35 @@ theorem sum_block_eq {lo : List OutHtlc} {li : List InHtlc} (P : OutHtlc → Boo
 /-- amounts of `a`'s outbound HTLCs whose fulfilment `b` has already credited and `a` not yet debited -/
 def EA (s : Sys) : Nat := sumBy s.a.outb (fun h => exc (cfgA s h.id)) (·.amt)
 
-def Funded (n : Node) : Prop := (n.outb.map (·.amt)).sum ≤ n.valueToSelf
+/-- the outbound HTLCs that still count against the offerer (all but failed removals already signed away)
+    are covered by its balance -/
+def Funded (n : Node) : Prop := liveSum n ≤ n.valueToSelf
+
+theorem liveSum_eq (n : Node) : liveSum n = sumBy n.outb (fun h => liveOut h.st) (·.amt) := rfl
+
+/-- table lemmas: liveness against the rewrites and the claimed-value tests -/
+theorem live_onBuild (st : OutState) : liveOut st.onBuildCommitment = liveOut st := by
+  cases st with
+  | awaitingRemoteRevokeToRemove ok => cases ok <;> rfl
+  | awaitingRemovedRemoteRevoke ok => cases ok <;> rfl
+  | _ => rfl
+theorem live_onCS (st : OutState) : liveOut st.onCommitmentSigned = true → liveOut st = true := by
+  cases st with
+  | remoteRemoved ok => intro _; rfl
+  | awaitingRemoteRevokeToRemove ok => cases ok <;> exact id
+  | awaitingRemovedRemoteRevoke ok => cases ok <;> exact id
+  | _ => exact id
+theorem live_of_claimed (g : Bool) (st : OutState) : (!(st.included g) && st.hasPreimage) = true → liveOut st = true := by
+  cases st with
+  | awaitingRemoteRevokeToRemove ok => cases ok <;> cases g <;> simp [OutState.included, OutState.hasPreimage, liveOut]
+  | awaitingRemovedRemoteRevoke ok => cases ok <;> cases g <;> simp [OutState.included, OutState.hasPreimage, liveOut]
+  | _ => intro _; rfl
+theorem live_raaMapOut (h : OutHtlc) : liveOut (raaMapOut h).st = liveOut h.st := by
+  obtain ⟨id, amt, st⟩ := h
+  cases st with
+  | awaitingRemoteRevokeToRemove ok => cases ok <;> rfl
+  | awaitingRemovedRemoteRevoke ok => cases ok <;> rfl
+  | _ => rfl
 
 structure Bal (s : Sys) : Prop where
   cons : s.a.valueToSelf + s.b.valueToSelf = s.total + EA s + EA s.swap
@@ -173,35 +201,48 @@ theorem EA_swap_unchanged {s s' : Sys} {e : Ev} (hg' : GoodA s.swap) (hb : Base 
   EA_step_map hg' hb' (by simpa using hb) (stepG_swap h) hbw ha (fun x => x)
     (by show s'.b.outb = s.b.outb.map (fun x => x); rw [hbout]; simp) (fun _ => ⟨rfl, rfl⟩)
 
-/-- non-revoke messages rewrite `outb` pointwise and touch neither the balance nor the awaiting flag -/
-theorem onMsg_nonraa {n n' : Node} {total : Nat} {m : Msg} {ok : Bool} (h : n.onMsg total m = some (n', ok)) (hm : m ≠ .raa) :
+/-- non-revoke messages rewrite `outb` pointwise (never reviving a dead HTLC) and touch neither the
+    balance nor the awaiting flag -/
+theorem onMsg_nonraa {n n' : Node} {total : Nat} {m : Msg} {ok : Bool} (hok : NodeOK n)
+    (h : n.onMsg total m = some (n', ok)) (hm : m ≠ .raa) :
     n'.valueToSelf = n.valueToSelf ∧ n'.awaitingRaa = n.awaitingRaa ∧
-    ∃ g : OutHtlc → OutHtlc, n'.outb = n.outb.map g ∧ ∀ x, (g x).id = x.id ∧ (g x).amt = x.amt := by
+    ∃ g : OutHtlc → OutHtlc, n'.outb = n.outb.map g ∧ (∀ x, (g x).id = x.id ∧ (g x).amt = x.amt) ∧
+      ∀ x ∈ n.outb, liveOut (g x).st = true → liveOut x.st = true := by
   cases m with
   | raa => exact absurd rfl hm
   | add id amt =>
     obtain ⟨_, _, e⟩ := onMsg_add h
     subst e
-    exact ⟨rfl, rfl, fun x => x, by simp, fun _ => ⟨rfl, rfl⟩⟩
+    exact ⟨rfl, rfl, fun x => x, by simp, fun _ => ⟨rfl, rfl⟩, fun _ _ hh => hh⟩
   | fulfill id =>
-    obtain ⟨_, _, e⟩ := onMsg_fulfill h
+    obtain ⟨⟨y, hy, hyid, hyst⟩, _, e⟩ := onMsg_fulfill h
     subst e
-    exact ⟨rfl, rfl, _, rfl, fun x => by by_cases c : x.id = id <;> simp [c]⟩
+    refine ⟨rfl, rfl, _, rfl, fun x => by by_cases c : x.id = id <;> simp [c], ?_⟩
+    intro x hx hl
+    by_cases c : x.id = id
+    · have : x = y := sorted_unique hok.sOut hx hy (by rw [c, hyid])
+      rw [this, hyst]; rfl
+    · simpa [c] using hl
   | fail id =>
-    obtain ⟨_, _, e⟩ := onMsg_fail h
+    obtain ⟨⟨y, hy, hyid, hyst⟩, _, e⟩ := onMsg_fail h
     subst e
-    exact ⟨rfl, rfl, _, rfl, fun x => by by_cases c : x.id = id <;> simp [c]⟩
+    refine ⟨rfl, rfl, _, rfl, fun x => by by_cases c : x.id = id <;> simp [c], ?_⟩
+    intro x hx hl
+    by_cases c : x.id = id
+    · have : x = y := sorted_unique hok.sOut hx hy (by rw [c, hyid])
+      rw [this, hyst]; rfl
+    · simpa [c] using hl
   | cs c =>
     obtain ⟨e, _⟩ := onMsg_cs h
     subst e
-    exact ⟨rfl, rfl, _, rfl, fun _ => ⟨rfl, rfl⟩⟩
+    exact ⟨rfl, rfl, _, rfl, fun _ => ⟨rfl, rfl⟩, fun x _ hl => live_onCS x.st hl⟩
 
 theorem Bal.commit_true {s s' : Sys} {adds fu fa : List Nat} (hbal : Bal s) (hg : GoodA s) (hg' : GoodA s.swap)
     (hb : Base s) (hb' : Base s.swap) (h : stepG s (.commit true adds fu fa) = some s') : Bal s' := by
   obtain ⟨hk, h0⟩ := stepG_some h
   obtain ⟨hp, n, ms, hc, e⟩ := step_commit_true h0
   obtain ⟨haw, _, en, ems⟩ := commit_some hc
-  have hfund : adds.sum + (s.a.outb.map (·.amt)).sum ≤ s.a.valueToSelf := by
+  have hfund : adds.sum + liveSum s.a ≤ s.a.valueToSelf := by
     simp only [evOk, Bool.and_eq_true, decide_eq_true_eq] at hk; exact hk.2
   have ha1 : s.a.awaitingRaa = true → s'.a.awaitingRaa = true := by intro _; rw [e, en]
   have hb1 : s.b.awaitingRaa = true → s'.b.awaitingRaa = true := by intro hh; rw [e]; exact hh
@@ -225,12 +266,16 @@ theorem Bal.commit_true {s s' : Sys} {adds fu fa : List Nat} (hbal : Bal s) (hg 
     have : s'.a.valueToSelf = s.a.valueToSelf ∧ s'.b.valueToSelf = s.b.valueToSelf ∧ s'.total = s.total := by
       rw [e, en]; exact ⟨rfl, rfl, rfl⟩
     rw [this.1, this.2.1, this.2.2]; exact hbal.cons
-  · show (s'.a.outb.map (·.amt)).sum ≤ s'.a.valueToSelf
-    rw [hout]
-    have : s'.a.valueToSelf = s.a.valueToSelf := by rw [e, en]; rfl
-    rw [this, List.map_map]
-    show (List.map (fun h : OutHtlc => h.amt) (s.a.outb ++ mkOuts s.a.nextOutId adds)).sum ≤ _
-    rw [List.map_append, List.sum_append, sum_mkOuts]
+  · show liveSum s'.a ≤ s'.a.valueToSelf
+    have hv : s'.a.valueToSelf = s.a.valueToSelf := by rw [e, en]; rfl
+    rw [hv, liveSum_eq, hout, sumBy_map, sumBy_append]
+    have h1 : sumBy s.a.outb (fun x => liveOut (x.st.onBuildCommitment)) (fun x => x.amt) = liveSum s.a := by
+      rw [liveSum_eq]; exact sumBy_congr (fun x _ => live_onBuild x.st) (fun _ _ => rfl)
+    have h2 : sumBy (mkOuts s.a.nextOutId adds) (fun x => liveOut (x.st.onBuildCommitment)) (fun x => x.amt) ≤ adds.sum := by
+      rw [← sum_mkOuts adds s.a.nextOutId, ← sumBy_true]
+      exact sumBy_mono _ (fun _ _ _ => rfl)
+    show sumBy s.a.outb (fun x => liveOut (x.st.onBuildCommitment)) (fun x => x.amt)
+      + sumBy (mkOuts s.a.nextOutId adds) (fun x => liveOut (x.st.onBuildCommitment)) (fun x => x.amt) ≤ _
     omega
   · have : s'.b = s.b := by rw [e]
     show Funded s'.b
@@ -240,6 +285,7 @@ theorem Bal.commit_true {s s' : Sys} {adds fu fa : List Nat} (hbal : Bal s) (hg 
 theorem Bal.quiet {s s' : Sys} {e : Ev} (hbal : Bal s) (hg : GoodA s) (hg' : GoodA s.swap)
     (hb : Base s) (hb' : Base s.swap) (h : stepG s e = some s')
     (g : OutHtlc → OutHtlc) (hgid : ∀ x, (g x).id = x.id ∧ (g x).amt = x.amt)
+    (hlive : ∀ x ∈ s.a.outb, liveOut (g x).st = true → liveOut x.st = true)
     (h1 : s'.a.outb = s.a.outb.map g) (h2 : s'.b.outb = s.b.outb)
     (h3 : s'.a.valueToSelf = s.a.valueToSelf) (h4 : s'.b.valueToSelf = s.b.valueToSelf)
     (h5 : s'.a.awaitingRaa = s.a.awaitingRaa) (h6 : s'.b.awaitingRaa = s.b.awaitingRaa) (h7 : s'.total = s.total) : Bal s' := by
@@ -248,12 +294,17 @@ theorem Bal.quiet {s s' : Sys} {e : Ev} (hbal : Bal s) (hg : GoodA s) (hg' : Goo
   have hEA : EA s' = EA s := EA_step_map hg hb hb' h ha1 hb1 g h1 hgid
   have hEB : EA s'.swap = EA s.swap := EA_swap_unchanged hg' hb hb' h h2 ha1 hb1
   refine ⟨by rw [hEA, hEB, h3, h4, h7]; exact hbal.cons, ?_, ?_⟩
-  · show (s'.a.outb.map (·.amt)).sum ≤ s'.a.valueToSelf
-    rw [h1, h3, List.map_map]
-    have : (fun h : OutHtlc => h.amt) ∘ g = (fun h : OutHtlc => h.amt) := by funext x; exact (hgid x).2
-    rw [this]; exact hbal.fa
-  · show (s'.b.outb.map (·.amt)).sum ≤ s'.b.valueToSelf
-    rw [h2, h4]; exact hbal.fb
+  · show liveSum s'.a ≤ s'.a.valueToSelf
+    rw [liveSum_eq, h1, h3, sumBy_map]
+    have : sumBy s.a.outb (fun x => liveOut (g x).st) (fun x => (g x).amt) ≤ liveSum s.a := by
+      rw [liveSum_eq]
+      have e1 : sumBy s.a.outb (fun x => liveOut (g x).st) (fun x => (g x).amt)
+          = sumBy s.a.outb (fun x => liveOut (g x).st) (·.amt) := sumBy_congr (fun _ _ => rfl) (fun x _ => (hgid x).2)
+      rw [e1]; exact sumBy_mono _ hlive
+    exact Nat.le_trans this hbal.fa
+  · show liveSum s'.b ≤ s'.b.valueToSelf
+    have : liveSum s'.b = liveSum s.b := by unfold liveSum; rw [h2]
+    rw [this, h4]; exact hbal.fb
 
 theorem raaGained_eq (n : Node) : raaGained n = sumBy n.inb (fun h => h.st == .localRemoved true) (·.amt) := rfl
 theorem raaLost_eq (n : Node) : raaLost n = sumBy n.outb (fun h => h.st == .awaitingRemovedRemoteRevoke true) (·.amt) := rfl
@@ -372,27 +423,30 @@ theorem Bal.recv_raa {s s' : Sys} {rest : List Msg} (hbal : Bal s) (hg : GoodA s
     exact sumBy_congr (fun x hx => (hEBp x hx).1) (fun _ _ => rfl)
   -- arithmetic
   have hlost : raaLost s.a ≤ s.a.valueToSelf := by
-    have : raaLost s.a ≤ (s.a.outb.map (·.amt)).sum := by
-      rw [raaLost_eq, ← sumBy_true]; exact sumBy_mono _ (fun _ _ _ => rfl)
+    have : raaLost s.a ≤ liveSum s.a := by
+      rw [raaLost_eq, liveSum_eq]
+      apply sumBy_mono
+      intro x _ hx
+      have : x.st = .awaitingRemovedRemoteRevoke true := by simpa using hx
+      rw [this]; rfl
     exact Nat.le_trans this hbal.fa
   have hcons := hbal.cons
   refine ⟨?_, ?_, ?_⟩
   · rw [hEB, hsa, hsb, hst, hnval]; omega
-  · show (s'.a.outb.map (·.amt)).sum ≤ s'.a.valueToSelf
-    rw [hsa, hnval, hnout, ← sumBy_true, sumBy_map, sumBy_filter]
-    have h1 : sumBy s.a.outb (fun x => raaKeepOut x && true) (fun x => (raaMapOut x).amt)
-        = sumBy s.a.outb (fun x => true && raaKeepOut x) (·.amt) :=
-      sumBy_congr (fun x _ => by simp) (fun x _ => raaMapOut_amt x)
-    have h2 := sumBy_split raaKeepOut s.a.outb (fun _ => true) (·.amt)
-    have h3 : raaLost s.a ≤ sumBy s.a.outb (fun x => true && !raaKeepOut x) (·.amt) := by
+  · show liveSum s'.a ≤ s'.a.valueToSelf
+    rw [hsa, hnval, liveSum_eq, hnout, sumBy_map, sumBy_filter]
+    have h1 : sumBy s.a.outb (fun x => raaKeepOut x && liveOut (raaMapOut x).st) (fun x => (raaMapOut x).amt)
+        = sumBy s.a.outb (fun x => liveOut x.st && raaKeepOut x) (·.amt) :=
+      sumBy_congr (fun x _ => by rw [live_raaMapOut, Bool.and_comm]) (fun x _ => raaMapOut_amt x)
+    have h2 := sumBy_split raaKeepOut s.a.outb (fun x => liveOut x.st) (·.amt)
+    have h3 : raaLost s.a ≤ sumBy s.a.outb (fun x => liveOut x.st && !raaKeepOut x) (·.amt) := by
       rw [raaLost_eq]
       apply sumBy_mono
       intro x _ hx
       have : x.st = .awaitingRemovedRemoteRevoke true := by simpa using hx
-      simp [raaKeepOut, this]
-    have h4 := hbal.fa
-    unfold Funded at h4
-    rw [← sumBy_true] at h4
+      simp [raaKeepOut, this, liveOut]
+    have h4 : liveSum s.a ≤ s.a.valueToSelf := hbal.fa
+    rw [liveSum_eq] at h4
     rw [h1]; omega
   · show Funded s'.b
     rw [hsb]; exact hbal.fb
@@ -409,12 +463,12 @@ theorem Bal.step_true {s s' : Sys} {e : Ev} (hbal : Bal s) (hg : GoodA s) (hg' :
   | release x =>
     simp only at he; subst he
     obtain ⟨_, _, e⟩ := step_release_true h0
-    exact hbal.quiet hg hg' hb hb' h (fun x => x) (fun _ => ⟨rfl, rfl⟩) (by rw [e]; simp) (by rw [e]) (by rw [e]) (by rw [e])
+    exact hbal.quiet hg hg' hb hb' h (fun x => x) (fun _ => ⟨rfl, rfl⟩) (fun _ _ hh => hh) (by rw [e]; simp) (by rw [e]) (by rw [e]) (by rw [e])
       (by rw [e]) (by rw [e]) (by rw [e])
   | sendRaa x =>
     simp only at he; subst he
     obtain ⟨_, e⟩ := step_sendRaa_true h0
-    exact hbal.quiet hg hg' hb hb' h (fun x => x) (fun _ => ⟨rfl, rfl⟩) (by rw [e]; simp) (by rw [e]) (by rw [e]) (by rw [e])
+    exact hbal.quiet hg hg' hb hb' h (fun x => x) (fun _ => ⟨rfl, rfl⟩) (fun _ _ hh => hh) (by rw [e]; simp) (by rw [e]) (by rw [e]) (by rw [e])
       (by rw [e]) (by rw [e]) (by rw [e])
   | recv y =>
     simp only at he; subst he
@@ -422,8 +476,8 @@ theorem Bal.step_true {s s' : Sys} {e : Ev} (hbal : Bal s) (hg : GoodA s) (hg' :
     by_cases hmr : m = .raa
     · subst hmr
       exact hbal.recv_raa hg hg' hb hb' hamt' h hq
-    · obtain ⟨e1, e2, g, e3, e4⟩ := onMsg_nonraa hm hmr
-      exact hbal.quiet hg hg' hb hb' h g e4 (by rw [e]; exact e3) (by rw [e]) (by rw [e]; exact e1) (by rw [e])
+    · obtain ⟨e1, e2, g, e3, e4, e5⟩ := onMsg_nonraa hb.ok hm hmr
+      exact hbal.quiet hg hg' hb hb' h g e4 e5 (by rw [e]; exact e3) (by rw [e]) (by rw [e]; exact e1) (by rw [e])
         (by rw [e]; exact e2) (by rw [e]) (by rw [e])
 
 theorem Bal.step {s s' : Sys} {e : Ev} (hbal : Bal s) (hg : GoodA s) (hg' : GoodA s.swap)
@@ -509,11 +563,14 @@ theorem balance_agree {s : Sys} {c : Commit} {rest : List Msg} (hq : s.qab = Msg
       | some st => rw [hs] at h1; simp at h1
   -- no truncation
   have hle1 : EA s ≤ s.a.valueToSelf := by
-    have : EA s ≤ (s.a.outb.map (·.amt)).sum := by rw [← sumBy_true]; exact sumBy_mono _ (fun _ _ _ => rfl)
+    have : EA s ≤ liveSum s.a := by
+      rw [← hAout, liveSum_eq]
+      exact sumBy_mono _ (fun x _ hx => live_of_claimed true x.st hx)
     exact Nat.le_trans this hbal.fa
   have hle2 : sumBy s.b.outb (fun h => !(h.st.included false) && h.st.hasPreimage) (·.amt) ≤ s.b.valueToSelf := by
-    have : sumBy s.b.outb (fun h => !(h.st.included false) && h.st.hasPreimage) (·.amt) ≤ (s.b.outb.map (·.amt)).sum := by
-      rw [← sumBy_true]; exact sumBy_mono _ (fun _ _ _ => rfl)
+    have : sumBy s.b.outb (fun h => !(h.st.included false) && h.st.hasPreimage) (·.amt) ≤ liveSum s.b := by
+      rw [liveSum_eq]
+      exact sumBy_mono _ (fun x _ hx => live_of_claimed false x.st hx)
     exact Nat.le_trans this hbal.fb
   have hcons := hbal.cons
   show s.a.valueToSelf + sumBy s.a.inb (fun h => !(h.st.included true) && h.st.hasPreimage) (·.amt)
